@@ -76,6 +76,9 @@ def candidates(m):
             # the loop itself was destroyed through another handle (its container still exists)
             for what in ['destroy', 'itr', 'additem', 'addpkt', 'setcat']:
                 o.append(StaleLoopCall(l, what))
+    if m.l_live('L9'):
+        for order in ('first', 'last', 'other-loop', 'alone'):
+            o.append(SessionBadUpdate(order))
     return o
 
 
@@ -99,9 +102,24 @@ class FailingIterUpdate(Op):
         return p
 
 
+class SessionBadUpdate(Op):
+    """inside the iteration of the 'in-session-close' context (iterator I2 on the helper loop, after a nested read-only call
+    and a valid update): an update naming a foreign item must answer CIF_WRONG_LOOP and must not disturb the earlier change"""
+    rc_index = -1
+    session_only = True
+
+    def lines(self):
+        (order,) = self.args
+        sets = {'first': [('_zz', 'V1'), ('_it', 'V2')], 'last': [('_it', 'V2'), ('_zz', 'V1')], 'other-loop': [('_it', 'V2'), ('_a', 'V1')], 'alone': [('_zz', 'V1')]}[order]
+        return ['pkt.create P6 0'] + ['pkt.set P6 %s %s' % (U(n), vlit(v)) for n, v in sets] + ['itr.update I2 P6']
+
+    def step(self, m, ans):
+        return [] if ans[-1].get('rc') == WRONG_LOOP else ['%r: update answered %r, CIF_WRONG_LOOP expected' % (self, ans[-1])]
+
+
 def must_fail(m, op):
     mm = m.clone()
-    if isinstance(op, (StaleLoopCall, FailingIterUpdate)):
+    if isinstance(op, (StaleLoopCall, FailingIterUpdate, SessionBadUpdate)):
         return True
     try:
         if isinstance(op, LoopAddPkt):
@@ -148,9 +166,18 @@ def probe_state(uni, hist, m):
     dumps = ['dump C%d' % c for c in ncif]
     raws = ['rawdump C%d' % c for c in ncif]
     base = {}
-    variants = ('plain', 'in-tx-close', 'in-tx-abort') if m.l_live('L9') else ('plain',)
+    variants = ('plain', 'in-tx-close', 'in-tx-abort', 'in-session-close') if m.l_live('L9') else ('plain',)
+
+    def ctx(variant):
+        if variant == 'plain':
+            return [], []
+        if variant == 'in-session-close':
+            # an iteration that has already seen a nested read-only call (it leaves a savepoint behind) and a valid change
+            return (['itr.open L9 I2', 'itr.next I2', 'loop.names L9', 'pkt.create P7 0', 'pkt.set P7 %s c:%s' % (U('_it'), 'changed'.encode('utf-16-be').hex()), 'itr.update I2 P7'],
+                    ['itr.close I2'])
+        return ['itr.open L9 I2', 'itr.next I2'], ['itr.close I2' if variant == 'in-tx-close' else 'itr.abort I2']
     for variant in variants:
-        o, c = ([], []) if variant == 'plain' else (['itr.open L9 I2', 'itr.next I2'], ['itr.close I2' if variant == 'in-tx-close' else 'itr.abort I2'])
+        o, c = ctx(variant)
         a = ex.run(['reset'] + pre + o + raws + c + dumps + fl + dumps)
         n0 = 1 + len(pre) + len(o)
         base[variant] = (a[n0:n0 + len(raws)], a[n0 + len(raws) + len(c):])
@@ -161,7 +188,9 @@ def probe_state(uni, hist, m):
         for variant in variants:
             if variant != 'plain' and getattr(op, 'plain_only', False):
                 continue
-            o, c = ([], []) if variant == 'plain' else (['itr.open L9 I2', 'itr.next I2'], ['itr.close I2' if variant == 'in-tx-close' else 'itr.abort I2'])
+            if variant != 'in-session-close' and getattr(op, 'session_only', False):
+                continue
+            o, c = ctx(variant)
             try:
                 a = ex.run(['reset'] + pre + o + raws + ol + raws + c + dumps + fl + dumps)
             except Crash as cr:
@@ -295,7 +324,7 @@ def main():
         exhaustive = exhaustive and st['exhaustive'] and st['depth_completed'] == d
         print('  %s: %s' % (u.name, per[u.name]), flush=True)
     return rep.finish({'states': tot['states'], 'transitions': tot['transitions'], 'traces_validated_against_impl': tot['transitions'],
-                       'failing_calls_applied': tot['failing_calls'], 'variants': ['plain', 'inside an open iterator then close', 'inside an open iterator then abort'],
+                       'failing_calls_applied': tot['failing_calls'], 'variants': ['plain', 'inside an open iterator then close', 'inside an open iterator then abort', 'inside an iteration after a nested read-only call and a valid update, then close'],
                        'samples': samples[:4] or [{'none': 1}], 'universes': per, 'exhaustive': exhaustive,
                        'explanation': 'states = distinct reachable states at which the failing-call alphabet was applied; every failing call is executed on the real library in three transaction contexts with raw-table comparison before/after and a differential follow-up sequence'},
                       ['a call is "failing" when the reference model (mc/model.py) predicts that it cannot succeed at that state'])
